@@ -171,6 +171,21 @@ int main()
       hxEndLine();
       continue;
     }
+    else if(hxIs(l, "state", 1))
+    {
+      Buffer& b = *var[v];
+      if(b.buffer)
+        printf("state %lu %lu %lu own", (unsigned long)b.size(), (unsigned long)b.capacity(), (unsigned long)(b.bufferStart - b.buffer));
+      else
+      {
+        const unsigned char* p = (const unsigned char*)b.bufferStart;
+        const char* kind = b.bufferStart == (byte*)&b._capacity ? "dflt"
+          : (p >= &storage[0][0] && p < &storage[0][0] + sizeof(storage)) ? "stale" : "att";
+        printf("state %lu %lu - %s", (unsigned long)b.size(), (unsigned long)b.capacity(), kind);
+      }
+      hxEndLine();
+      continue;
+    }
     else { printf("bad-op"); hxEndLine(); continue; }
     free(d);
     observe();
